@@ -586,13 +586,46 @@ class Parser:
         path_tok = self._strip_path_prefix(a)
         if path_tok:
             self._path_token = path_tok
-        self._decode_fstring_parts(b, raw="r" in a.string.rstrip("'\"").lower())
+        b = self._finish_fstring_parts(b, raw="r" in a.string.rstrip("'\"").lower())
         return ast.JoinedStr(values=b, **locs)
+
+    def fstring_field(
+        self,
+        value: ast.expr,
+        debug: TokenInfo | None,
+        conversion: int | None,
+        format_spec: ast.JoinedStr | None,
+        **locs: int,
+    ) -> ast.FormattedValue:
+        """A replacement field; ``{expr=}`` also yields the text of the expression (see _finish_fstring_parts)."""
+        if not conversion:
+            conversion = b"r"[0] if debug and format_spec is None else -1
+        node = ast.FormattedValue(value=value, conversion=conversion, format_spec=format_spec, **locs)
+        if debug:
+            # everything between the opening brace and the end of '=' plus the blanks that follow it
+            first, last = locs["lineno"], debug.end[0]
+            lines = self._tokenizer.get_lines(list(range(first, last + 1)))
+            end = debug.end[1]
+            while lines[-1][end : end + 1] in (" ", "\t", "\f"):
+                end += 1
+            lines[-1] = lines[-1][:end]
+            lines[0] = lines[0][locs["col_offset"] + 1 :] if first != last else lines[0][locs["col_offset"] + 1 : end]
+            node._debug_text = ast.Constant(  # type: ignore[attr-defined]
+                value="".join(lines),
+                lineno=first,
+                col_offset=locs["col_offset"] + 1,
+                end_lineno=last,
+                end_col_offset=end,
+            )
+        return node
 
     _fstring_escape = re.compile(r"\\(?:N\{[^{}]*\}|[0-7]{1,3}|x[0-9a-fA-F]{0,2}|u[0-9a-fA-F]{0,4}|U[0-9a-fA-F]{0,8}|[^{}])|\{\{|\}\}", re.S)
 
-    def _decode_fstring_parts(self, values: list[ast.FormattedValue | ast.Constant], raw: bool) -> None:
-        """Literal parts arrive as source text: undo doubled braces and, unless the f-string is raw, escapes."""
+    def _finish_fstring_parts(
+        self, values: list[ast.FormattedValue | ast.Constant], raw: bool
+    ) -> list[ast.FormattedValue | ast.Constant]:
+        """Literal parts arrive as source text: undo doubled braces and, unless the f-string is raw, escapes;
+        a ``{expr=}`` field is preceded by the text of its expression."""
 
         def unescape(m: re.Match[str]) -> str:
             text = m.group()
@@ -603,14 +636,20 @@ class Parser:
             quote = "'''" if '"' in text else '"""'
             return cast(str, ast.literal_eval(quote + text + quote))
 
+        finished: list[ast.FormattedValue | ast.Constant] = []
         for part in values:
             if isinstance(part, ast.Constant):
                 try:
                     part.value = self._fstring_escape.sub(unescape, part.value)
                 except SyntaxError as e:
                     self.raise_syntax_error_known_location(e.msg, part)
-            elif isinstance(part.format_spec, ast.JoinedStr):
-                self._decode_fstring_parts(part.format_spec.values, raw)
+            else:
+                if isinstance(part.format_spec, ast.JoinedStr):
+                    part.format_spec.values = self._finish_fstring_parts(part.format_spec.values, raw)
+                if (text := part.__dict__.pop("_debug_text", None)) is not None:
+                    finished.append(text)
+            finished.append(part)
+        return finished
 
     @staticmethod
     def _is_bytes_literal(part: ast.JoinedStr | TokenInfo) -> bool:
